@@ -797,7 +797,10 @@ class Expr:
 		if k == 'un':
 			return ('un', rv[1], self.of_operand(rv[2], depth))
 		if k == 'cast':
-			return ('cast', self.of_operand(rv[2], depth), rv[3])
+			src_ty = None
+			if rv[2][0] in ('c', 'm') and len(rv[2][1]) == 1:
+				src_ty = self.fu.locals[rv[2][1][0]].get('ty')
+			return ('cast', self.of_operand(rv[2], depth), rv[3], src_ty)
 		if k == 'disc':
 			return ('disc', self.of_place(rv[1], depth))
 		if k == 'agg':
